@@ -40,11 +40,17 @@ static LARGEST: AtomicUsize = AtomicUsize::new(0);   // largest single request w
 /// machine is shared.
 static CAP: AtomicUsize = AtomicUsize::new(usize::MAX);
 
-fn refused(size: usize) -> bool { ON.load(SeqCst) && size > CAP.load(SeqCst) }
+// Only the thread that switched the measurement on is measured: the runtime's other threads (stdio, the
+// watchdog) allocate buffers of their own, which showed up as a 196608-byte "largest allocation" of a
+// 7-byte input in 3 of 60374 cases of a thorough run on a loaded machine.
+thread_local! { static MINE: std::cell::Cell<bool> = const { std::cell::Cell::new(false) }; }
+fn mine() -> bool { MINE.try_with(|m| m.get()).unwrap_or(false) }
+
+fn refused(size: usize) -> bool { ON.load(SeqCst) && mine() && size > CAP.load(SeqCst) }
 
 fn note(size: usize) {
     let cur = CUR.fetch_add(size, SeqCst) + size;
-    if ON.load(SeqCst) {
+    if ON.load(SeqCst) && mine() {
         LARGEST.fetch_max(size, SeqCst);
         PEAK.fetch_max(cur.saturating_sub(BASE.load(SeqCst)), SeqCst);
     }
@@ -69,8 +75,8 @@ unsafe impl GlobalAlloc for Counting {
 #[global_allocator]
 static ALLOC: Counting = Counting;
 
-fn m_start() { BASE.store(CUR.load(SeqCst), SeqCst); ON.store(true, SeqCst); }
-fn m_stop() { ON.store(false, SeqCst); }
+fn m_start() { BASE.store(CUR.load(SeqCst), SeqCst); MINE.with(|m| m.set(true)); ON.store(true, SeqCst); }
+fn m_stop() { ON.store(false, SeqCst); MINE.with(|m| m.set(false)); }
 fn m_reset() { ON.store(false, SeqCst); PEAK.store(0, SeqCst); LARGEST.store(0, SeqCst); }
 
 //------------ worker (child process) ----------------------------------------------
